@@ -319,7 +319,9 @@ def main(argv=None):
     os.environ['PYVC_TIER'] = tier      # read by pyvc.engine in the workers (budgets, cvc5 cross-check)
     seed = int(os.environ.get('VERIF_SEED', '0') or 0)
     t0 = time.time()
-    os.makedirs(os.path.join(VERIF, 'evidence'), exist_ok=True)
+    # runs against a scratch copy (PYVC_REPO) must not overwrite the evidence of the real tree
+    evdir = os.environ.get('PYVC_EVIDENCE_DIR') or os.path.join(VERIF, 'evidence')
+    os.makedirs(evdir, exist_ok=True)
     os.makedirs(os.path.join(VERIF, 'replays'), exist_ok=True)
 
     if a.replay:
@@ -545,7 +547,7 @@ def main(argv=None):
         'wall_s': round(time.time() - t0, 2),
         'violations': len(violations),
     }
-    with open(os.path.join(VERIF, 'evidence', f'{pid}.json'), 'w') as fp:
+    with open(os.path.join(evdir, f'{pid}.json'), 'w') as fp:
         json.dump(evidence, fp, indent=1, default=str)
 
     # ---- report
